@@ -220,6 +220,22 @@ def fresh_value_scenarios():
                     tot = sum(100 + i for i in range(nb))
                     exp = [str(tot + (1 if writes else 0))] + [str(7000 + i) for i in range(nl)] + [str(tot + (2 if writes else 0))]
                     out.append((text, exp))
+    # == / != on containers of different sizes, both orders, nested
+    for a, b, eq in (('map {"a": 1}', 'map {"a": 1, "b": 2}', False), ("map {}", "map {1: 2}", False), ("[1]", "[1, 2]", False), ("[]", "[[]]", False),
+                     ('[map {1: 2}]', '[map {1: 2, 3: 4}]', False), ('map {1: [1]}', 'map {1: [1, 2]}', False), ('map {1: 2, 3: 4}', 'map {3: 4, 1: 2}', True),
+                     ('map {1: map {}}', 'map {1: map {2: 3}}', False), ("[1, [2, 3]]", "[1, [2, 3]]", True), ('map {"k": [1, 2]}', 'map {"k": [1, 2]}', True)):
+        t = str(eq).lower()
+        f = str(not eq).lower()
+        out.append(("let a = %s; let b = %s; push(__o, a == b); push(__o, b == a); push(__o, a != b); push(__o, b != a); push(__o, %s == %s); push(__o, %s == %s);" % (a, b, a, b, b, a),
+                    [t, t, f, f, t, t]))
+    # match arms whose patterns are two ranges of one kind (every kind that has ranges), literal arms of that kind before / after
+    for kind, lits in (("int", ["1", "5", "9", "10", "20", "30"]), ("byte", ["b'a'", "b'e'", "b'i'", "b'j'", "b't'", "b'z'"]),
+                       ("char", ["'a'", "'e'", "'i'", "'j'", "'t'", "'z'"]), ("string", ['"a"', '"e"', '"i"', '"j"', '"t"', '"z"'])):
+        lo1, mid1, hi1, lo2, mid2, hi2 = lits
+        for first_literal in (False, True):
+            arms = ("%s => 9, " % hi2 if first_literal else "") + "%s..%s => 1, %s..=%s => 2, _ => 0" % (lo1, hi1, lo2, hi2)
+            probes = [(lo1, 1), (mid1, 1), (hi1, 0), (lo2, 2), (mid2, 2), (hi2, 9 if first_literal else 2)]
+            out.append(("fn cls(v) { match v { %s } } " % arms + " ".join("push(__o, cls(%s));" % v for v, _ in probes), [str(e) for _, e in probes]))
     CP = "fn cp(x) { let c = []; let i = 0; while i < len(x) { push(c, x[i]); i = i + 1; } c } "
     return [(CP + t, e) for t, e in out]
 
@@ -234,7 +250,7 @@ def run(chk):
     chk.assumptions = ["gen.py's definitional evaluator is the reference semantics (DESIGN.md section 4); evaluations that reach an "
                        "unspecified corner are discarded and counted", "names are unique per program here (shadowing is C04's workload)"]
     chk.floor = 1500
-    chk.rule += '; plus hand-written scenarios (recursion through helper closures, fresh-value semantics of array +, capture-then-shadow)'
+    chk.rule += '; plus hand-written scenarios (recursion through helper closures, fresh-value semantics of array + and of literals, capture-then-shadow, functions made in top-level blocks called after later definitions, == / != on containers of different sizes, match over two ranges of every kind that has ranges)'
     n = 4000 if quick else 150000
     jobs = []
     unspec = {}
